@@ -509,6 +509,17 @@ func runC08(c *rt.Ctx) {
 		c.Require("long-text-with-limit-raised", 30000)
 	}
 
+	// the text as other layers spell it (quoted, bracketed, escaped, padded, doubled, other scripts)
+	c.Parallel("decorated", 0, func(w *rt.W) {
+		bases := []string{"10kB", "1 024 KiB", "0", "7 B", "18446744073709551615", "16 EiB", "1MB", "0YiB", "12_345 B"}
+		for bi := w.Shard; bi < len(bases); bi += w.NShards {
+			for _, d := range decorate(bases[bi]) {
+				c08Text(w, d)
+				w.ClassN("decorated-valid-text", 1)
+			}
+		}
+	})
+	c.Require("decorated-valid-text", 900)
 	coldStart(c, "C08", 14)
 
 	nBytes := c.Pick(200000, 20000000)
